@@ -494,7 +494,7 @@ func TestVerifC20BrokerLoad(t *testing.T) {
 				}
 				defer atomic.AddInt64(&inflight, -1)
 				body, _ := messages.EncodeProxyPollRequestWithRelayPrefix(sid, "standalone", "unrestricted", 0, "")
-				rec, _ := serve(mux, "POST", "/proxy", nil, body, "203.0.113.5:1")
+				rec, _ := serve(mux, "POST", "/proxy", nil, body, fmt.Sprintf("203.0.%d.%d:1", round%200, k))
 				var pr messages.ProxyPollResponse
 				if json.Unmarshal(rec.Body.Bytes(), &pr) == nil && pr.Status == "client match" {
 					ab, _ := messages.EncodeAnswerRequest("answer-"+sid, sid)
